@@ -66,7 +66,8 @@ LatestPats(gens) == IF Len(gens) > 0 /\ Len(gens[Len(gens)].pats) > 0
 \* histories the command rooted at R loads: R itself and every history below it whose
 \* directory exists (history._find_and_load_child_histories; ignore patterns play no part)
 Visible(hs, dk, R) == {R} \cup {h \in HRoots(hs) : Below(R, h) /\ IsDir(dk, h)}
-Deepest(S)       == CHOOSE h \in S : \A k \in S : Len(k) <= Len(h)
+\* total: a path that lies below no history at all is owned by "nobody" (a tuple no history root equals)
+Deepest(S)       == IF S = {} THEN <<"?nobody">> ELSE CHOOSE h \in S : \A k \in S : Len(k) <= Len(h)
 \* history.find_history_for_path: a directory that is itself a history root belongs to that
 \* history (as its "." record), a file to the deepest root above it
 OwnerIn(H, R, p, isdir) ==
@@ -353,23 +354,35 @@ DirRecords(hs, H, R, d) ==
       THEN {<<h, i>> : i \in {j \in DOMAIN gens : gens[j].root.has}}
       ELSE {<<h, i>> : i \in {j \in DOMAIN gens : rp \in DOMAIN gens[j].dirs /\ gens[j].dirs[rp].fmts # {}}}
 
-VerifyDHResult(hs, dk, R, P) ==
+\* verify -dh [-h hf] [-co] [-ro].  hf = "" : the formats of every loaded history.
+\*   -ro : sub-directories are calculated but not compared (the root always is)
+\*   -co : a recorded entry in a format that was not calculated is no failure
+\* A sub-directory entry in a format that was not calculated counts as a failure of *that* format when the
+\* directory has no entry in any calculated format; the run fails (12) when the number of formats with a failure
+\* equals the number of calculated formats (commands.py, failures_per_format_lookup).
+VerifyDHResultX(hs, dk, R, P, hf, co, ro) ==
   LET eff   == EffPats(hs, R, P)
       H     == Visible(hs, dk, R)
-      F     == VerifyDHFormats(hs, H)
+      F     == IF hf = "" THEN VerifyDHFormats(hs, H) ELSE {hf}
       dirs  == {R} \cup {p \in DOMAIN dk : Below(R, p) /\ dk[p] = "DIR" /\ ~Ign(R, p, eff)}
       recF(h, i, d) == IF Rel(h, d) = Root THEN hs[h][i].root.fmts ELSE hs[h][i].dirs[Rel(h, d)].fmts
       same(h, i, d) ==
         LET g == hs[h][i]
         IN /\ SSig(g.snap, d, g.croot, g.ceff) = SSig(dk, d, R, eff)
            /\ CSig(g.snap, d, g.croot, g.ceff) = CSig(dk, d, R, eff)
-      \* per format: some compared record of that format mismatches
-      failsF(f) == \E d \in dirs : \E r \in DirRecords(hs, H, R, d) :
-                      f \in recF(r[1], r[2], d) /\ f \in F /\ ~same(r[1], r[2], d)
-      unknownF  == \E d \in dirs : \E r \in DirRecords(hs, H, R, d) : ~(recF(r[1], r[2], d) \subseteq F)
-      baddirs   == {d \in dirs : \E r \in DirRecords(hs, H, R, d) : ~same(r[1], r[2], d)}
-  IN [exit |-> IF \A f \in F : failsF(f) THEN 12 ELSE 0,
+      recs(d)   == DirRecords(hs, H, R, d)
+      entF(d)   == UNION {recF(r[1], r[2], d) : r \in recs(d)}
+      subFail(f) == \E d \in dirs \ {R} : \E r \in recs(d) :
+                      /\ f \in recF(r[1], r[2], d)
+                      /\ \/ (f \in F /\ ~ro /\ ~same(r[1], r[2], d))
+                         \/ (f \notin F /\ ~co /\ entF(d) \cap F = {})
+      rootFail(f) == f \in F /\ \E r \in recs(R) : f \in recF(r[1], r[2], R) /\ ~same(r[1], r[2], R)
+      keys      == {f \in SeqSet(Fmts) : subFail(f) \/ rootFail(f)}
+      unknownF  == \E d \in dirs : \E r \in recs(d) : ~(recF(r[1], r[2], d) \subseteq F)
+      baddirs   == {d \in dirs : \E r \in recs(d) : ~same(r[1], r[2], d)}
+  IN [exit |-> IF keys # {} /\ Cardinality(keys) = Cardinality(F) THEN 12 ELSE 0,
       baddirs |-> baddirs, unknown |-> unknownF, formats |-> F]
+VerifyDHResult(hs, dk, R, P) == VerifyDHResultX(hs, dk, R, P, "", FALSE, FALSE)
 
 (***************************************************************************)
 (* flatten: first non-failed digest per path and format, generation order  *)
@@ -600,6 +613,18 @@ P_C08_WhoWrites(pre, post, dk, op, ob, ign) ==
           ELSE LET T == {OwnerIn(H, op.R, op.R \o Rel(op.R, p), FALSE) : p \in RecordedBy(pre, post)}
                IN W = {h \in H : \E t \in T : BelowEq(h, t)}
 
+\* the histories a generation-writing command is entitled to write into (C08's last sentence, used by C14):
+\* folder mode: the command root and every loaded history whose root is not ignored;
+\* -sf: the histories owning the named files (files below named folders included) and the histories above them
+InScope(pre, dk, op, ign) ==
+  LET H == Visible(pre, dk, op.R)
+  IN IF op.op = "create" THEN {op.R} \cup {h \in H : h \notin ign}
+     ELSE LET named == {p \in DOMAIN dk : dk[p] # "DIR" /\ \E s \in op.S : s = p \/ (IsDir(dk, s) /\ Below(s, p))}
+              T     == {OwnerIn(H, op.R, p, FALSE) : p \in named}
+          IN {h \in H : \E t \in T : BelowEq(h, t)}
+P_C14_Scope(pre, post, dk, op, ign) ==
+  op.op \in {"create", "createsf"} => Wrote(pre, post) \subseteq InScope(pre, dk, op, ign)
+
 \* ---- C12 -------------------------------------------------------------------------------
 P_C12_Excluded(pre, post, op, ob, ign) ==
   (op.op = "create" /\ ob.exit \in {0, 10, 11}) => RecordedBy(pre, post) \cap ign = {}
@@ -654,12 +679,15 @@ P_C19_InfoSF(pre, dk, op, ob) ==
 DHGens(hs, h) == {i \in DOMAIN GensOf(hs, h) : hs[h][i].root.has}
 SameAsGen(hs, dk, h, i, R, eff) ==
   LET g == hs[h][i] IN SSig(g.snap, h, g.croot, g.ceff) = SSig(dk, h, R, eff)
+\* with -h hf only generations that carry a directory hash in hf can be compared at all
+Covered(hs, dk, R, hf) ==
+  hf = "" \/ \A h \in Visible(hs, dk, R) \cap DOMAIN hs : \A i \in DHGens(hs, h) : hf \in hs[h][i].root.fmts
 P_C09_Identical(pre, dk, op, ob) ==
-  (op.op = "verifydh" /\ ~op.co)
+  (op.op = "verifydh" /\ (op.co \/ Covered(pre, dk, op.R, op.h)))
     => LET H == Visible(pre, dk, op.R) IN
        (\A h \in H : \A i \in DHGens(pre, h) : SameAsGen(pre, dk, h, i, op.R, ob.eff)) => ob.exit = 0
 P_C09_Detects(pre, dk, op, ob) ==
-  (op.op = "verifydh" /\ ~op.co /\ op.h = "" /\ DHGens(pre, op.R) # {})
+  (op.op = "verifydh" /\ DHGens(pre, op.R) # {} /\ Covered(pre, dk, op.R, op.h))
     => ((\A i \in DHGens(pre, op.R) : ~SameAsGen(pre, dk, op.R, i, op.R, ob.eff)) => ob.exit = 12)
 \* named deviation Dev_F4b (known_findings.json): the exit rule needs a failure in *every* computed
 \* format, so a change can go unreported when the loaded histories do not all use the same formats.
